@@ -185,6 +185,7 @@ fn cmd_run(args: &Args) {
     let out = run_batch(prop, tier, seed, runs, threads, max_secs, &exclude);
 
     let mut hidden_state_note: Option<String> = None;
+    let mut unowned_entropy = false;
     if let Some(i) = out.determinism_mismatch {
         // Two executions of run i in this process disagreed. If two fresh processes agree with
         // each other, the simulator is deterministic and the library carries state from one
@@ -203,8 +204,14 @@ fn cmd_run(args: &Args) {
             println!("NOTE: {}", msg);
             hidden_state_note = Some(msg);
         } else {
-            eprintln!("HARNESS ERROR: run {} produced two different trace digests for the same seed (nondeterminism in the simulator)", i);
-            std::process::exit(2);
+            // Fresh processes disagree too. The simulator's own choices are a pure function of the seed
+            // (tools/determinism.sh), so the library must be drawing entropy the seam does not own
+            // (something other than rand::thread_rng: OsRng, from_entropy, the clock ...). Oracles still
+            // judge every run; replays of violations are retried because they may need a lucky draw.
+            let msg = format!("run {} is not reproducible even across fresh processes: the library draws entropy from a source other than rand::thread_rng, which the simulator does not own; schedules are then sampled by the real source, not chosen", i);
+            println!("NOTE: {}", msg);
+            hidden_state_note = Some(msg);
+            unowned_entropy = true;
         }
     }
 
@@ -234,7 +241,17 @@ fn cmd_run(args: &Args) {
         let (_r, trace) = report::exec_traced(prop, &scn);
         let j = report::replay_json(prop, &scn, &v, seed, f.run, tier, trace, minimised);
         let path = report::write_replay(prop, seed, f.run, &j);
-        match report::verify_in_fresh_process(&path, class) {
+        let mut verified = report::verify_in_fresh_process(&path, class);
+        if unowned_entropy {
+            // with entropy the simulator does not own a replay reproduces only with some probability
+            for _ in 0..40 {
+                if matches!(verified, Ok(true)) {
+                    break;
+                }
+                verified = report::verify_in_fresh_process(&path, class);
+            }
+        }
+        match verified {
             Ok(true) => {
                 println!("VIOLATION property={} replay={} class={} run={} :: {}", prop.name(), path.display(), class, f.run, v.msg);
                 exit_code = 1;
